@@ -399,13 +399,24 @@ def load_model(model_folder: str, model_name: str, compiler_options: Dict[str, s
 
         for key in variables_with_metadata:
             m = db[key + "__metadata_dependent"]
+            # The metadata function returns one row per scalar element, so the
+            # rows of a variable start after the elements of all (possibly
+            # array-valued) variables before it.
+            offset = 0
             for i, d in enumerate(db[key]):
                 variable = variable_dict[d["name"]]
+                shape = variable.symbol.shape
+                rows = slice(offset, offset + variable.symbol.numel())
+                offset = rows.stop
                 for j, tmp in enumerate(CASADI_ATTRIBUTES):
                     if m[i, j] == _DepMeta.MX_DEPENDENT:
-                        setattr(variable, tmp, metadata[key][i, j])
+                        setattr(variable, tmp, ca.reshape(metadata[key][rows, j], shape))
                     elif m[i, j] == _DepMeta.MX_INDEPENDENT:
-                        setattr(variable, tmp, ca.MX(independent_metadata[key][i, j]))
+                        setattr(
+                            variable,
+                            tmp,
+                            ca.MX(ca.reshape(independent_metadata[key][rows, j], shape)),
+                        )
                     else:
                         # Already handled as part of Variable dict. That way
                         # we also do not have to worry about making sure the
